@@ -133,11 +133,26 @@ def iterate_body(S, cfg):
     env = dict(Re=Re, s=s, De_i=De_i, De_b=De_b, Re_iL=Re_iL, Re_iT=Re_iT, Cf_iL=Cf_iL, Cf_iT=Cf_iT, GLC_i=GLC, L=L,
                lam=None, x1=x_prev[0], x2=x_prev[1], x3=x_prev[2], Dei_over_Deb=De_i / De_b, L_over_Dei=L / De_i,
                log10_ReiT_over_ReiL=None, iteration=0, stop_msg='')
-    with patched((fsc, '_calc_ffb_tr', lambda *a, **k: ff), (fsc.np if False else fsc, 'abs', lambda v: 0)):
+    seen = {}
+
+    def ffb_rec(ff_iL, ff_iT, INT_i, gamma, lam):
+        seen.update(ff_iL=ff_iL, ff_iT=ff_iT, INT=INT_i)
+        return ff
+    with patched((fsc, '_calc_ffb_tr', ffb_rec), (fsc.np if False else fsc, 'abs', lambda v: 0)):
         # abs(...) < 1e-5 is forced true: the iteration that returns
         env['log10_ReiT_over_ReiL'] = S.vec('logratio', 3, 'pos', 0.5, 2.0)
         out = cut.run_body_fn(env)
     S.holds('iterate.returns', out[0] == 'return')
+    # the friction terms of the iteration are those of the TRUE subchannel Reynolds numbers Re x_i De_i / De_b,
+    # whatever regime window they fall in; only the intermittency factor is clipped to [0, 1]
+    lr = env['log10_ReiT_over_ReiL']
+    for i in range(3):
+        Re_i = Re * x_prev[i] * env['Dei_over_Deb'][i]
+        S.eq(f'iterate.laminar_friction_at_true_Re[{i}]', seen['ff_iL'][i] * Re_i, Cf_iL[i])
+        S.eq(f'iterate.turbulent_friction_at_true_Re[{i}]', seen['ff_iT'][i] * Re_i ** float(M['turbulent']), Cf_iT[i])
+        raw = fsc.np.log10(Re_i / Re_iL[i]) / lr[i]
+        want = 1 if raw > 1 else (0 if raw < 0 else raw)
+        S.eq(f'iterate.intermittency_clipped[{i}]', seen['INT'][i], want)
     x1, x2, x3 = out[1]
     t = ff * (L / De_i) + GLC
     S.eq('fs.mass[iterate]', s[0] * x1 + s[1] * x2 + s[2] * x3, 1)
